@@ -5,8 +5,9 @@ pub static mut SCRIPT_LEN: usize = 0;
 pub static mut SCRIPT_POS: usize = 0;
 pub static mut READS_AFTER_EOF: u32 = 0;
 pub static mut EXIT_CODE: Option<i32> = None;
-/// called by the exit model just before the path ends; harnesses install their final assertions here
-pub static mut AT_EXIT: Option<fn()> = None;
+/// when set, the exit model runs the C16 harness's final assertions just before the path ends
+/// (a plain flag, not a function pointer: CBMC's function-pointer removal produced spurious dealloc failures)
+pub static mut AT_EXIT_C16: bool = false;
 pub struct Stdin;
 pub fn stdin() -> Stdin { Stdin }
 impl Stdin {
@@ -29,7 +30,7 @@ impl Stdin {
 }
 pub fn reset(script: &[&'static str]) {
     unsafe {
-        SCRIPT_LEN = script.len(); SCRIPT_POS = 0; READS_AFTER_EOF = 0; EXIT_CODE = None;
+        SCRIPT_LEN = script.len(); SCRIPT_POS = 0; READS_AFTER_EOF = 0; EXIT_CODE = None; AT_EXIT_C16 = false;
         let mut i = 0; while i < MAXSCRIPT { SCRIPT[i] = if i < script.len() { script[i] } else { "" }; i += 1; }
     }
 }
@@ -43,6 +44,6 @@ pub fn spin_detected() {
     end_path();
 }
 pub fn exit(code: i32) -> ! {
-    unsafe { EXIT_CODE = Some(code); if let Some(f) = AT_EXIT { f(); } }
+    unsafe { EXIT_CODE = Some(code); if AT_EXIT_C16 { crate::h_loop::final_checks(); } }
     end_path()
 }
